@@ -367,7 +367,8 @@ inductive Op where
   | remove (i : Nat)                    -- `problem.cells.remove(cells[i])`
   | moveEnd (i : Nat)                   -- remove + append: the cell goes to the end
   | reorder (perm : List Nat)           -- `problem.cells = [cells[j] for j in perm]`
-  | setImp (i : Nat) (ps : List P) (v : Rat)   -- `cell.importance[p] = v` (ps: the particles that share p's tree, p first)
+  | setImp (i : Nat) (ps : List P) (v : Rat)   -- `cell.importance[p] = v` for every p of ps (the harness sends one particle:
+                                               -- a particle that shares a parsed tree gets its own copy first, the others keep theirs)
   | setImpAll (i : Nat) (v : Rat)       -- `cell.importance.all = v`
   | setVol (i : Nat) (v : Option Rat)   -- `cell.volume = v` / `del cell.volume`
   | setUni (i : Nat) (n : Nat)          -- `cell.universe = Universe(n)`
@@ -417,10 +418,10 @@ def step (st : St) : Op → St × Option Err
       ({ st with cells := modifyAt st.cells i (fun c => { c with imp := ps.foldl (fun es p => impSet es p v) c.imp }) }, none)
     else (st, some .indexError)
   | .setImpAll i v =>
-    -- `importance.py: all.setter`: every particle of the mode (a particle without an entry is a KeyError: the
-    -- harness only uses it on cells that hold every particle)
+    -- `importance.py: all.setter`: every particle of the mode, through `__setitem__` (a particle without an
+    -- entry gets one; a particle outside the mode keeps its value)
     if i < st.cells.length then
-      ({ st with cells := modifyAt st.cells i (fun c => { c with imp := c.imp.map (fun e => if st.mode.contains e.p then { e with v := v } else e) }) }, none)
+      ({ st with cells := modifyAt st.cells i (fun c => { c with imp := st.mode.foldl (fun es p => impSet es p v) c.imp }) }, none)
     else (st, some .indexError)
   | .setVol i v => ({ st with cells := modifyAt st.cells i (fun c => { c with vol := v }) }, none)
   | .setUni i n => ({ st with cells := modifyAt st.cells i (fun c => { c with uni := some n }) }, none)
